@@ -6,6 +6,10 @@
 // next-function; the interposed epoll_wait/select prints the timeout it was given as a `W` line, advances the clock by d
 // and wakes the loop with no descriptor ready), and wide cases (`wnew/winit/wen/wdis/wdel`: flat TimerEvents with ANY
 // signed 64-bit millisecond count, tied to the width-faithful model lean/TboxModel/C02/Wide.lean).
+// Round 4: the loop's own exit timer (`xslot`, `xl w`, `xlo w`, script item `q<w>`: CommonLoop::exitLoop(w) from a deferred
+// function, from outside the run, from inside a timer callback; the harness notices that runLoop() returned — `P loop-exit` —
+// and runs the loop again on the same object), TimerPool calls with an empty std::function (`pnull`), ~TimerPool with pending
+// timers followed by a fresh pool (`pdestroy`).
 #include "vh.h"
 #include "vtime.h"
 #include <dlfcn.h>
@@ -38,6 +42,7 @@ static int64_t wall0 = 0;                      // system clock reading (ms) when
 static std::string bits() {
     std::string s;
     for (size_t i = 0; i < objs.size(); ++i) {
+        if (pool_kind[i] == 's') { s.push_back('s'); continue; }
         if (pool_kind[i]) { s.push_back(pool_alive[i] ? 'p' : 'x'); continue; }
         auto *t = objs[i];
         s.push_back(t == nullptr ? 'x' : (t->isEnabled() ? '1' : '0'));
@@ -45,6 +50,8 @@ static std::string bits() {
     return s.empty() ? "-" : s;
 }
 
+static bool slot_mode = false;                 // this case declared the exit-timer slot (object 0, shown as `s`)
+static bool loop_tainted = false;              // an exit timer may still be pending in this loop object: take a fresh loop for the next case
 static int mode = 0;    // 0 undecided, 1 = plain TimerEvent case, 2 = TimerPool case (a case never mixes the two)
 static int pool_cancel(size_t j) {
     if (j >= objs.size() || !pool_kind[j]) return 0;
@@ -99,6 +106,7 @@ static int apply(const Act &a) {
     if (a.kind == 'a') return make_pool('a', a.ms, a.sub) ? 1 : 0;
     if (a.kind == 'v') return make_pool('e', a.ms, a.sub) ? 1 : 0;
     if (a.kind == 'n') { make_plain(a.sub); return 1; }
+    if (a.kind == 'q') { loop_tainted = true; loop->exitLoop(std::chrono::milliseconds((int64_t)a.ms)); return 1; }
     if (a.j >= objs.size() || objs[a.j] == nullptr) return 0;   // dead or unknown object: no-op (model: alive = false)
     TimerEvent *t = objs[a.j];
     switch (a.kind) {
@@ -112,7 +120,10 @@ static int apply(const Act &a) {
 
 static std::string run_script(const std::vector<Act> &sc) {
     std::string r;
-    for (auto &a : sc) r.push_back(apply(a) ? '1' : '0');
+    for (auto &a : sc) {
+        int v = apply(a);
+        if (a.kind != 'q') r.push_back(v ? '1' : '0');       // exitLoop() returns nothing
+    }
     return r.empty() ? "-" : r;
 }
 
@@ -143,13 +154,15 @@ static bool p_item(const std::string &w, size_t &p, bool has_self, size_t self, 
             if (!pl || !take_nat(w, p, n) || n < 1 || n > MAXMS) return false;
             a.ms = n; return p_nested(w, p, pl, a.sub);
         case 'n': if (pl) return false; return p_nested(w, p, pl, a.sub);
-        case 'e': case 'd': if (pl || !take_nat(w, p, n)) return false; a.j = n; return true;
+        case 'q': if (pl || !slot_mode || !take_nat(w, p, n) || n > MAXMS) return false; a.ms = n; return true;
+        case 'e': case 'd': if (pl || !take_nat(w, p, n) || (slot_mode && n == 0)) return false; a.j = n; return true;
         case 'x':
             if (pl || !take_nat(w, p, n)) return false;
             a.j = n;
+            if (slot_mode && n == 0) return false;
             return has_self && n != self;     // destroying oneself inside one's own callback is outside the property
         case 'i':
-            if (pl || !take_nat(w, p, n)) return false;
+            if (pl || !take_nat(w, p, n) || (slot_mode && n == 0)) return false;
             a.j = n;
             if (p >= w.size() || w[p] != ':') return false;
             ++p;
@@ -191,7 +204,7 @@ static bool parse_act(const std::string &w, Act &a) {
 static void reset_all() {
     if (pool) pool->cleanup();
     for (auto *&t : objs) { delete t; t = nullptr; }
-    objs.clear(); scripts.clear(); pool_kind.clear(); pool_alive.clear(); pool_tok.clear(); mode = 0;
+    objs.clear(); scripts.clear(); pool_kind.clear(); pool_alive.clear(); pool_tok.clear(); mode = 0; slot_mode = false;
     vt::enable(1000, 1700000000000LL);          // every case starts at the same clock readings (the models count from there)
     wall0 = vt::wall_ms();
 }
@@ -201,18 +214,29 @@ static std::function<int()> g_step;            // 0 = script finished, 1 = go on
 static bool idle_armed = false;
 static bool idle_eintr = false;                // `idlex`: the wait is interrupted by a signal (-1 / EINTR) instead of timing out
 static int64_t idle_adv = 0;
+static long wait_calls = 0;                     // calls of the engine's wait (one per loop pass)
+static long posted_at = -1;                     // value of wait_calls when the pending driver step was posted
+static bool resume_pending = false;             // the driver step was run by the loop's exit drain: runLoop() is returning
+static bool harness_exit = false;               // the harness itself ended the run (end of input, engine switch, fresh loop)
+static bool have_outside = false;               // `xlo w`: call exitLoop(w) once runLoop() has returned
+static int64_t outside_wait = 0;
 static void post_step();
 static void step_once() {
+    // A function posted with runNext() runs in the NEXT pass, i.e. after another call of the engine's wait - unless the loop
+    // has been stopped: then the exit drain (cleanupDeferredTasks) runs it right away.  That is how the harness notices
+    // that stopLoop() was called, without looking at any private member.
+    if (wait_calls == posted_at) { resume_pending = true; return; }
     int r = g_step();
-    if (r == 0) loop->exitLoop();
+    if (r == 0) { harness_exit = true; loop->exitLoop(); }
     else if (r == 1) post_step();
 }
-static void post_step() { loop->runNext([] { step_once(); }, "verif-driver"); }
-static void idle_wake() { idle_armed = false; vt::advance_ms(idle_adv); post_step(); }
+static void post_step() { posted_at = wait_calls; loop->runNext([] { step_once(); }, "verif-driver"); }
+static void idle_wake() { idle_armed = false; vt::advance_ms(idle_adv); post_step(); posted_at = wait_calls - 1; }
 
 extern "C" int epoll_wait(int epfd, struct epoll_event *evs, int maxevents, int timeout) {
     typedef int (*fn_t)(int, struct epoll_event *, int, int);
     static fn_t real = (fn_t)dlsym(RTLD_NEXT, "epoll_wait");
+    ++wait_calls;
     if (idle_armed) {                           // the loop sleeps: report the timeout, let virtual time pass, nothing is ready
         std::cout << "W epoll " << timeout << "\n";
         idle_wake();
@@ -224,6 +248,7 @@ extern "C" int epoll_wait(int epfd, struct epoll_event *evs, int maxevents, int 
 extern "C" int select(int nfds, fd_set *r, fd_set *w, fd_set *e, struct timeval *tv) {
     typedef int (*fn_t)(int, fd_set *, fd_set *, fd_set *, struct timeval *);
     static fn_t real = (fn_t)dlsym(RTLD_NEXT, "select");
+    ++wait_calls;
     if (idle_armed) {
         if (tv) std::cout << "W select " << (long long)tv->tv_sec << " " << (long long)tv->tv_usec << "\n";
         else std::cout << "W select null\n";
@@ -254,13 +279,20 @@ int main(int argc, char **argv) {
                                     // interval is due at once: the callbacks of that pass come first, as for `adv`)
     g_step = [&]() -> int {
         pass_callbacks = 0;
-        if (pending_adv) { std::cout << "P ret=1 en=" << bits() << "\n"; pending_adv = false; }
+        if (pending_adv) {
+            std::cout << "P ret=1 en=" << bits() << "\n"; pending_adv = false;
+            if (slot_mode) return 1;     // one empty pass before the next op: if the exit timer fired in this pass the loop leaves now
+        }
         if (!pending_line.empty()) { std::cout << pending_line; pending_line.clear(); }
         std::string line;
         if (!std::getline(std::cin, line)) { reset_all(); eof = true; return 0; }
         auto w = vh::words(line);
         if (w.empty()) return 1;
-        if (w[0] == "case") { reset_all(); std::cout << line << "\n"; return 1; }
+        if (w[0] == "case") {
+            reset_all(); std::cout << line << "\n";
+            if (loop_tainted) { loop_tainted = false; return 0; }    // a fresh loop object (the old one may hold a pending exit timer)
+            return 1;
+        }
         uint64_t n; int64_t sn;
         if (w[0] == "engine" && w.size() == 2 && (w[1] == "epoll" || w[1] == "select") && objs.empty()) {
             // only as the first op of a case: switch the back-end (leave this loop, start the other)
@@ -268,11 +300,37 @@ int main(int argc, char **argv) {
             if (w[1] != engine) { next_engine = w[1]; return 0; }
             return 1;
         }
-        bool is_pool_op = (w[0] == "pafter" || w[0] == "pevery" || w[0] == "pcancel" || w[0] == "pcleanup" || w[0] == "pat" || w[0] == "wall");
-        bool is_plain_op = (w[0] == "new" || w[0] == "init" || w[0] == "en" || w[0] == "dis" || w[0] == "del");
+        bool is_pool_op = (w[0] == "pafter" || w[0] == "pevery" || w[0] == "pcancel" || w[0] == "pcleanup" || w[0] == "pat" || w[0] == "wall" || w[0] == "pnull" || w[0] == "pdestroy");
+        bool is_plain_op = (w[0] == "new" || w[0] == "init" || w[0] == "en" || w[0] == "dis" || w[0] == "del" || w[0] == "xslot" || w[0] == "xl" || w[0] == "xlo");
         bool is_wide_op = (w[0] == "wnew" || w[0] == "winit" || w[0] == "wen" || w[0] == "wdis" || w[0] == "wdel");
         if ((is_pool_op && mode != 0 && mode != 2) || (is_plain_op && mode != 0 && mode != 1) || (is_wide_op && mode != 0 && mode != 3)) { std::cout << "bad-op\n"; return 1; }
-        if (w[0] == "new" && w.size() == 2) {
+        if (w[0] == "xslot" && w.size() == 1 && objs.empty()) {
+            // object 0 stands for the loop's own exit timer (CommonLoop::sp_exit_timer_); its state is not visible through the API
+            mode = 1; slot_mode = true;
+            objs.push_back(nullptr); scripts.emplace_back(); pool_kind.push_back('s'); pool_alive.push_back(false); pool_tok.emplace_back();
+            std::cout << "P ret=1 en=" << bits() << "\n";
+        } else if ((w[0] == "xl" || w[0] == "xlo") && w.size() == 2 && slot_mode && digits_ok(w[1]) && vh::to_u64(w[1], n) && n <= MAXMS) {
+            mode = 1; loop_tainted = true;
+            if (w[0] == "xl") loop->exitLoop(std::chrono::milliseconds((int64_t)n));
+            else { have_outside = true; outside_wait = (int64_t)n; loop->exitLoop(); }
+            std::cout << "P ret=1 en=" << bits() << "\n";
+        } else if (w[0] == "pnull" && w.size() == 3 && (w[1] == "a" || w[1] == "e" || w[1] == "t") && digits_ok(w[2]) && vh::to_u64(w[2], n) && n >= 1 && n <= MAXMS) {
+            mode = 2;
+            tbox::eventx::TimerPool::Callback none;            // empty std::function
+            tbox::eventx::TimerPool::TimerToken tok;
+            if (w[1] == "a") tok = pool->doAfter(std::chrono::milliseconds((int64_t)n), std::move(none));
+            else if (w[1] == "e") tok = pool->doEvery(std::chrono::milliseconds((int64_t)n), std::move(none));
+            else tok = pool->doAt(std::chrono::system_clock::now() + std::chrono::milliseconds((int64_t)std::min<uint64_t>(n, 100000)), std::move(none));
+            int r = tok.isNull() ? 0 : 1;
+            int c = pool->cancel(tok) ? 1 : 0;
+            std::cout << "P ret=" << r << " cancel=" << c << " en=" << bits() << "\n";
+        } else if (w[0] == "pdestroy" && w.size() == 1) {
+            mode = 2;
+            delete pool;                                        // ~TimerPool with whatever is pending; nothing of it may ever fire
+            pool = new tbox::eventx::TimerPool(loop);
+            for (size_t i = 0; i < objs.size(); ++i) if (pool_kind[i]) { pool_alive[i] = false; pool_tok[i] = tbox::eventx::TimerPool::TimerToken(); }
+            std::cout << "P ret=1 en=" << bits() << "\n";
+        } else if (w[0] == "new" && w.size() == 2) {
             std::vector<Act> sc;
             if (!parse_script(w[1], sc, objs.size(), false)) { std::cout << "bad-op\n"; return 1; }
             mode = 1;
@@ -331,7 +389,7 @@ int main(int argc, char **argv) {
             if (!parse_act("i" + w[1] + ":" + w[2] + ":" + w[3], a) || a.j >= objs.size()) { std::cout << "bad-op\n"; return 1; }
             mode = 1;
             std::cout << "P ret=" << (apply(a) ? 1 : 0) << " en=" << bits() << "\n";
-        } else if ((w[0] == "en" || w[0] == "dis" || w[0] == "del") && w.size() == 2 && vh::to_u64(w[1], n) && n < objs.size()) {
+        } else if ((w[0] == "en" || w[0] == "dis" || w[0] == "del") && w.size() == 2 && vh::to_u64(w[1], n) && n < objs.size() && !(slot_mode && n == 0)) {
             Act a; a.kind = w[0] == "en" ? 'e' : (w[0] == "dis" ? 'd' : 'x'); a.j = n; a.ms = 0; a.oneshot = false;
             mode = 1;
             std::cout << "P ret=" << (apply(a) ? 1 : 0) << " en=" << bits() << "\n";
@@ -340,8 +398,19 @@ int main(int argc, char **argv) {
         }
         return 1;
     };
-    post_step();
-    loop->runLoop(Loop::Mode::kForever);
+    harness_exit = false;
+    for (;;) {
+        resume_pending = false;
+        post_step();
+        loop->runLoop(Loop::Mode::kForever);
+        if (harness_exit || !resume_pending) break;
+        std::cout << "P loop-exit\n";                           // stopLoop() was called by the code under test: run the same loop again
+        if (have_outside) {
+            have_outside = false;
+            loop->exitLoop(std::chrono::milliseconds(outside_wait));    // armed while the loop is not running
+            std::cout << "P armed-outside en=" << bits() << "\n";   // (exitLoop(0) outside a run only clears a flag that runLoop() sets again)
+        }
+    }
     delete pool; pool = nullptr;
     delete loop;
   }
